@@ -475,6 +475,52 @@ def gen_commands(repo, out):
         fail("create -sf", f"unexpected option shape {kw}")
 
 
+    # how the two forms of create count failed verifications (Model/Create.v seal_file / Model/Commands.v sf_step, process_event):
+    #   create_for_single_files_subcommand: one count per sealed file, decided by the FIRST requested format's verdict  -> 1
+    #   create_for_folder_subcommand: one count per failed format of every sealed file                                    -> 2
+    #   anything else -> 0 (the obligations C03_failure_counting_rules then fail)
+    def norm(n):
+        return " ".join(ast.unparse(n).split())
+
+    def followed_by_count(body, i):
+        return i + 1 < len(body) and norm(body[i + 1]) == "if not success: num_failed_verifications += 1"
+
+    def exit_decision(fn):
+        hits = [n for n in ast.walk(fn) if isinstance(n, ast.If) and norm(n.test) == "num_failed_verifications > 0"]
+        return len(hits) == 1 and "VerificationFailedException" in norm(hits[0]) and len(hits[0].orelse) == 0
+
+    def blocks(fn):
+        for n in ast.walk(fn):
+            for field in ("body", "orelse", "finalbody"):
+                b = getattr(n, field, None)
+                if isinstance(b, list) and b and isinstance(b[0], ast.stmt):
+                    yield b
+
+    def count_increments(fn):
+        return sum(1 for n in ast.walk(fn) if isinstance(n, ast.AugAssign) and norm(n.target) == "num_failed_verifications")
+
+    fn = find_func(mod.body, "create_for_single_files_subcommand", "create -sf counting rule")
+    seal_calls = sum(1 for n in ast.walk(fn) if isinstance(n, ast.Call) and norm(n.func) == "seal_file_path")
+    good = 0
+    for b in blocks(fn):
+        for i, st in enumerate(b):
+            if isinstance(st, ast.Assign) and norm(st.targets[0]) == "success":
+                if norm(st.value) == "seal_result[hash_format_list[0]].success" and followed_by_count(b, i) and i > 0 and "seal_file_path(" in norm(b[i - 1]):
+                    good += 1
+                else:
+                    good -= 100
+    rule = 1 if (good == seal_calls == count_increments(fn) and seal_calls >= 1 and exit_decision(fn)) else 0
+    out.num("sf_count_rule", rule, "commands.py:create_for_single_files_subcommand -- 1: per file, first requested format's verdict")
+    fn = find_func(mod.body, "create_for_folder_subcommand", "create counting rule")
+    loops = [n for n in ast.walk(fn) if isinstance(n, ast.For) and norm(n.iter) == "seal_result.items()" and norm(n.target) == "(hash_format, result_tuple)"]
+    ok = len(loops) == 1 and count_increments(fn) == 1 and exit_decision(fn)
+    if ok:
+        b = loops[0].body
+        idx = [i for i, st in enumerate(b) if isinstance(st, ast.Assign) and norm(st.targets[0]) == "success"]
+        ok = len(idx) == 1 and norm(b[idx[0]].value) == "result_tuple.success" and followed_by_count(b, idx[0])
+    out.num("folder_count_rule", 2 if ok else 0, "commands.py:create_for_folder_subcommand -- 2: one count per failed format of every sealed file")
+
+
 def gen_cli(repo, out):
     for rel, grp in [("ascmhl/cli/ascmhl.py", "mhltool_cli"), ("ascmhl/cli/ascmhl_debug.py", "debug_cli")]:
         mod = parse(repo, rel)
